@@ -141,6 +141,59 @@ def replay_case(arg):
     return out
 
 
+def near_uniform(verdict, tier, seed):
+    """WeightsNear.tla: w_i = 1 + m_i 2^-s.  The exported integers give the exact relative error of the
+    evidence; the scale s puts the spread of the weights at sqrt(unit round-off) of each width."""
+    import smcdrv
+    from aspire.samples import Samples
+    consts = {"NMin": "= 2", "NMax": "= 4" if tier == "quick" else "= 6", "MMax": "= 3" if tier == "quick" else "= 4"}
+    cases, r, ncases = tlacases.export_cases("WeightsNear", consts, name="weights-near", timeout=3000)
+    n_eval = 0
+    for ci, c in enumerate(cases):
+        n, M, D = c["n"], c["msum"], c["d"]
+        for (ns, dt, s) in (("numpy", "float64", 26), ("numpy", "float32", 12), ("torch", "float64", 26), ("torch", "float32", 12),
+                            ("jax", "float64", 26), ("jax", "float32", 12), ("numpy", "float64", 12)):
+            if tier == "quick" and (ci + s + len(ns)) % 3:
+                continue
+            n_eval += 1
+            xp = smcdrv.get_xp(ns)
+            two_s = mpm.mpf(2) ** s
+            ll = np.array([float(mpm.log1p(mpm.mpf(m) / two_s)) for m in c["ms"]], dtype=dt)
+            zeros = np.zeros(n, dtype=dt)
+            x = np.stack([np.arange(1, n + 1, dtype=float), -np.arange(1, n + 1, dtype=float)], axis=1)
+            scen = {"builder": "weights_near", "params": {"case": c, "ns": ns, "dtype": dt, "s": s}}
+            tag = f"{ns}/{dt}/spread=2^-{s}"
+            try:
+                smp = Samples(x, log_likelihood=ll, log_prior=zeros, log_q=zeros, xp=xp, dtype=dt)
+            except Exception as ex:
+                verdict.violation(f"NeverRaises|compute_weights|{tag}|{type(ex).__name__}", f"Samples(...) raised {type(ex).__name__}: {str(ex)[:120]} for offsets {c['ms']}", scen)
+                continue
+            # exact values for the inputs as rounded to the requested width
+            w = [mpm.exp(mpm.mpf(float(v))) for v in ll]
+            mean = sum(w) / n
+            exp_rel = float(mpm.sqrt(sum((wi - mean) ** 2 for wi in w) / (n * (n - 1))) / mean)
+            model_rel = float(mpm.sqrt(mpm.mpf(D) / (n * (n - 1))) / (n * two_s + M))      # the specification's closed form
+            exp_ess = float(sum(w) ** 2 / sum(wi ** 2 for wi in w))
+            exp_logz = float(mpm.log(mean))
+            eps = 2.0 ** -23 if dt == "float32" else 2.0 ** -52
+            if abs(model_rel - exp_rel) > 1e-3 * model_rel + 1e-30:
+                raise MachineryError(f"WeightsNear: closed form {model_rel} vs value for the rounded inputs {exp_rel} ({c}, {dt}, s={s})")
+            lee = float(smcdrv.to_np(smp.log_evidence_error))
+            spread = 2.0 ** -s
+            # two-pass evaluation: relative accuracy eps / spread on the deviations
+            tol = (64 * eps / spread) * max(exp_rel, spread) + 16 * eps
+            if not (math.isfinite(lee) and abs(lee - exp_rel) <= tol):
+                verdict.violation(f"RelErrDef|near-uniform|{tag}", f"log_evidence_error {lee!r} != relative std of the mean weight {exp_rel!r} for weights 1 + {c['ms']}*2^-{s} (tolerance {tol:.3g})", scen)
+            ess = float(smcdrv.to_np(smp.effective_sample_size))
+            if not (math.isfinite(ess) and abs(ess - exp_ess) <= 64 * eps * n):
+                verdict.violation(f"EssDef|near-uniform|{tag}", f"ESS {ess!r} != {exp_ess!r} for weights 1 + {c['ms']}*2^-{s}", scen)
+            le = float(smcdrv.to_np(smp.log_evidence))
+            if not (math.isfinite(le) and abs(le - exp_logz) <= 16 * eps):
+                verdict.violation(f"EvidenceDef|near-uniform|{tag}", f"log_evidence {le!r} != {exp_logz!r} for weights 1 + {c['ms']}*2^-{s}", scen)
+    return {"near_uniform_cases": ncases, "near_uniform_evaluations": n_eval, "tlc_states": r.distinct, "tlc_transitions": r.generated,
+            "laws": ["TwoPassIsOnePass", "SpreadNonNeg", "ZeroIffUniform", "PermInvNear"]}
+
+
 def main(prop, tier, seed, replay_path=None):
     t0 = time.time()
     rnd = random.Random(seed + 21)
@@ -183,6 +236,7 @@ def main(prop, tier, seed, replay_path=None):
                                       replay={"builder": "weights_case", "params": {"case": byi[x["i"]]}})
             else:
                 seen[key] = val
+    near = near_uniform(verdict, tier, seed) if not replay_path else {}
     # binding self-test
     c0 = next(c for c in cases if c["n"] == 3 and len(set(c["ks"])) == 3 and 99 not in c["ks"])
     wrong = dict(c0); wrong["essnum"] = c0["essnum"] + c0["essden"]
@@ -191,7 +245,9 @@ def main(prop, tier, seed, replay_path=None):
         raise MachineryError("C02 self-test: wrong reference ESS accepted")
     rc, n_unlisted, known = verdict.finish()
     distinct = {(tuple(sorted(c["ks"])), tuple(c["split"])) for _, c, _, _ in todo if len(set(c["ks"])) > 1}
-    cov = {"states": int(max(1, r.distinct)), "transitions": int(max(1, r.generated)), "traces_validated_against_impl": n_eval,
+    cov = {"states": int(max(1, r.distinct)) + int(near.get("tlc_states", 0)), "transitions": int(max(1, r.generated)) + int(near.get("tlc_transitions", 0)),
+           "traces_validated_against_impl": n_eval + int(near.get("near_uniform_evaluations", 0)),
+           "near_uniform": {k: v for k, v in near.items() if not k.startswith("tlc_")},
            "samples": [{"case": todo[0][1]}, {"case": todo[len(todo) // 2][1]}],
            "evaluations": n_eval, "distinct_nontrivial": len(distinct),
            "rule": "cases = exponent sequences (N rows, k in {-inf,-3..3}) x splits of k into (ll, lp, lq) enumerated by TLC from Weights.tla, each replayed for namespaces x widths x shifts {0, +-2^17}; distinct = distinct (multiset of exponents, split) with at least two different weights",
